@@ -11,6 +11,9 @@ import (
 	"github.com/DataDog/datadog-traceroute/packets"
 )
 
+// specAddr: the netip form of a net.IP, IPv4-mapped addresses unmapped (independent of common.UnmappedAddrFromSlice)
+func specAddr(b []byte) netip.Addr { a, _ := netip.AddrFromSlice(b); return a.Unmap() }
+
 func specLocal(t *tcpDriver) netip.AddrPort  { return t.getLocalAddrPort() }
 func specTarget(t *tcpDriver) netip.AddrPort { return t.getTargetAddrPort() }
 
@@ -136,6 +139,12 @@ func specPlain4(p *packets.FrameParser) bool {
 //@ ensures[C10.entry.others]  forallint(h, old(selb(isOpen, h)) ==> selb(isOpen, h) && sel(closeN, h) == old(sel(closeN, h)))
 //@ ensures[C20.syn.nodial]    tcpDialed == old(tcpDialed)
 //@ before TracerouteSerial assert[C10.tcp.open] selb(isOpen, ref(driver.source)) && selb(isOpen, ref(driver.sink))
+// C12 (filter ⊇ matcher, composition step): the tuple filter installed for the run is exactly "from the target's
+// address and port to the local address and port" as the driver's matcher will later compute them from the same
+// configuration (specTarget / specLocal read t.Target, t.DestPort, t.srcIP, t.srcPort); with GenerateTCP4Filter#C12.exact
+// (accepts ICMPv4 and exactly that tuple) and the matcher's soundness clauses (accepts only ICMPv4 errors and TCP on
+// that tuple) no frame the matcher would accept is filtered out.
+//@ before Source.SetPacketFilter assert[C12.tcp.filter] callarg0.FilterType == packets.FilterTypeTCP && callarg0.FilterConfig.Src == netip.AddrPortFrom(specAddr(t.Target), t.DestPort) && callarg0.FilterConfig.Dst == netip.AddrPortFrom(specAddr(t.srcIP), t.srcPort)
 //@ modifies *, ghost isOpen, ghost closeN, ghost clock, ghost sendN, ghost sendLog, ghost sendClock
 
 //@ func (*TCPv4).TracerouteSequentialSocket
